@@ -18,7 +18,7 @@ from __future__ import annotations
 import ast
 
 from ..effects import StateEffects
-from ..model import Program, call_name, is_self_attr, norm, expand_locals, single_assignment_locals
+from ..model import Program, call_name, execution_condition, is_self_attr, norm, expand_locals, single_assignment_locals
 from ..poly import Rat, sqrt_of
 from ..report import AnalysisError
 from ..symexec import SymEnv
@@ -88,6 +88,11 @@ def rule_r2(rep, program: Program):
     sins = [n for n in env.trig if n.startswith("sin[")]
     coss = [n for n in env.trig if n.startswith("cos[")]
     r.inst({"trig": sorted(env.trig)})
+    if len(sins) + len(coss) == 1:
+        have = "sin" if sins else "cos"
+        miss = "cos" if sins else "sin"
+        r.violate(PROP, f"{f.qualname}:single-trig-term:{have}", f"the harmonic flow evaluates only {have}(omega*dt); the {miss} factor it needs is then derived from that value (e.g. sqrt(1 - {have}**2) = |{miss}|), which loses its sign: the map is the exact flow only while omega*|dt| stays within a quarter period", node=f.node, file=f.file)
+        return r
     if len(sins) != 1 or len(coss) != 1:
         raise AnalysisError(f"{f.qualname}: expected exactly one sin and one cos term")
     s, c = S(sins[0]), S(coss[0])
@@ -247,6 +252,15 @@ def rule_r4(rep, program: Program):
                         if isinstance(par, ast.IfExp) and "self.shape[0] is not None" in norm(par.test) and cur is par.body:
                             guarded = True
                         cur = par
+                    # the enclosing statement executes only when the size is known (if-arm or a preceding
+                    # guard clause that leaves the function)
+                    stmt = n
+                    while stmt in pm and not isinstance(stmt, ast.stmt):
+                        stmt = pm[stmt]
+                    for test, truth in execution_condition(f.node, stmt):
+                        t = norm(test)
+                        if (t == "self.shape[0] is None" and truth is False) or (t == "self.shape[0] is not None" and truth is True):
+                            guarded = True
                     # dominating `if self.shape[0] is None: raise`
                     for st in f.body_without_docstring():
                         if isinstance(st, ast.If) and "self.shape[0] is None" in norm(st.test) and any(isinstance(s, ast.Raise) for s in st.body) and st.lineno < n.lineno:
